@@ -28,27 +28,51 @@ def parseBody (stmts : List Item) : List Item :=
 def endsWithReturn (body : List Item) : Bool :=
   match body.getLast? with | some l => isReturn l | none => false
 
-/-- `emit.function`: docstring, the carried body (without its final `return` iff the description supplies
-    one), then that return -/
+/-- `emit.function`: docstring, the carried body, then the return built from the description — only when
+    the carried body does not itself end in a `return` (a carried body keeps its own final return) -/
 def emitBody (doc : Item) (body : List Item) (ret : Option Item) : List Item :=
+  [doc] ++ body ++ (if endsWithReturn body then [] else ret.toList)
+
+/-- the code before the repair: the final return was dropped and re-created from the description -/
+def emitBodyOld (doc : Item) (body : List Item) (ret : Option Item) : List Item :=
   [doc] ++ (if endsWithReturn body && ret.isSome then body.dropLast else body) ++ ret.toList
 
-/-- **round trip of a body that ends in `return e`** when the description carries that return: every
+theorem endsWithReturn_snoc (b : List Item) (r : Item) : endsWithReturn (b ++ [r]) = isReturn r := by
+  unfold endsWithReturn; simp
+
+/-- **round trip of a body that ends in `return e`**, whatever return the description carries: every
     statement comes back, in order, once; the final return is kept once -/
-theorem emit_parse_body (doc r : Item) (b : List Item) (hr : isReturn r = true) :
-    emitBody doc (b ++ [r]) (some r) = doc :: (b ++ [r]) := by
-  unfold emitBody endsWithReturn
-  simp [hr]
+theorem emit_parse_body (doc r : Item) (b : List Item) (ret : Option Item) (hr : isReturn r = true) :
+    emitBody doc (b ++ [r]) ret = doc :: (b ++ [r]) := by
+  unfold emitBody
+  rw [endsWithReturn_snoc, hr]; simp
 
 /-- a body without final return and no return in the description: unchanged -/
 theorem emit_body_noreturn (doc : Item) (b : List Item) (h : endsWithReturn b = false) :
     emitBody doc b none = doc :: b := by
-  unfold emitBody; simp
+  unfold emitBody; simp [h]
+
+/-- a body without final return gets the description's return appended, once, at the end -/
+theorem emit_body_addreturn (doc r : Item) (b : List Item) (h : endsWithReturn b = false) :
+    emitBody doc b (some r) = doc :: (b ++ [r]) := by
+  unfold emitBody; simp [h]
 
 /-- the re-emitted function parses back to the same carried body (docstring skipped) -/
-theorem parse_emit_body (doc r : Item) (b : List Item) (hd : isDocExpr doc = true) (hr : isReturn r = true) :
-    parseBody (emitBody doc (b ++ [r]) (some r)) = b ++ [r] := by
-  rw [emit_parse_body doc r b hr]; simp [parseBody, hd]
+theorem parse_emit_body (doc r : Item) (b : List Item) (ret : Option Item)
+    (hd : isDocExpr doc = true) (hr : isReturn r = true) :
+    parseBody (emitBody doc (b ++ [r]) ret) = b ++ [r] := by
+  rw [emit_parse_body doc r b ret hr]; simp [parseBody, hd]
+
+/-- the old code agrees only when the description's return re-creates the body's own -/
+theorem emitBodyOld_eq (doc r : Item) (b : List Item) (hr : isReturn r = true) :
+    emitBodyOld doc (b ++ [r]) (some r) = doc :: (b ++ [r]) := by
+  unfold emitBodyOld; rw [endsWithReturn_snoc, hr]; simp
+
+/-- witness of the repaired defect: the description stores `return 'done'` as the text `done`, the old
+    emitter re-created `return done` in place of the carried statement -/
+theorem emitBodyOld_replaces_return (doc r r' : Item) (b : List Item) (hr : isReturn r = true) :
+    emitBodyOld doc (b ++ [r]) (some r') = doc :: (b ++ [r']) := by
+  unfold emitBodyOld; rw [endsWithReturn_snoc, hr]; simp
 
 /-! ### RewriteName -/
 
